@@ -175,7 +175,7 @@ TABLE = {
         ("white point luminance is a positive literal",
          ["w.y"]),
     ("luv_bounds::LuvBounds::from_lightness", "(+ ((- (126452.0 * index) + (632260.0 * index)) * sub2) + (126452.0 * t))"):
-        ("zero only for l = 0 on the t = 0 lines; the resulting NaN line is skipped by intersect_length_at_angle (|denom| > 1e-6 is false for NaN), the t = 1 lines give length 0, and Hsluv<-Lchuv tests the bound with is_normal",
+        ("zero only for l = 0 on the t = 0 lines; the resulting NaN line is skipped by intersect_length_at_angle (|denom| > 1e-6 is false for NaN), the t = 1 lines give length 0 -- or are skipped too at hue 0 / 180, where max_chroma_at_hue now returns 0 for 'no line hit' (this entry used to claim the t = 1 lines always answer: wrong, F14; SENTINEL guards the not-found case now) -- and Hsluv<-Lchuv tests the bound with is_normal",
          ["bottom"]),
     ("ok_utils::find_gamut_intersection", "(+ ((+ l0 - l1) * cusp.chroma) + (c1 * cusp.lightness))"):
         ("lower-half intersection: called with l0 = l1 = L, c1 = 1: divisor = L_cusp > 0",
@@ -940,6 +940,7 @@ def run(F, rep, tier="quick", extra=None, only=None):
     rep.floor("division sites in the anchored files", n_const + n_guard + n_table + n_open + n_pos, 192)
     rep.floor("guarded division sites", n_guard, 43)
     check_domains(F, rep)
+    check_sentinels(F, rep)
     check_panics(F, rep)
     return {"level": "other", "explanation": EXPLANATION}
 
@@ -1115,6 +1116,58 @@ def check_domains(F, rep):
             rep.fail("DOM-TABLE", "%s: %s(%s)" % hit, "reviewed table entry matches no call site any more (the code changed: re-review)")
     rep.ob("DOM", "partial-function call sites", True, "%d constant, %d inside the domain by shape, %d justified in the reviewed table" % (n_const, n_shape, n_table))
     rep.floor("sqrt/ln/powf/acos/asin call sites", n_const + n_shape + n_table + n_open, 42)
+
+
+def check_sentinels(F, rep):
+    """SENTINEL: a search that starts from a huge sentinel (`let mut m = f64::MAX`, `INFINITY`) and only lowers it under a condition inside a
+    loop returns the sentinel itself when no candidate qualifies -- a finite input then yields 1.8e308 (infinity as f32, NaN after a
+    multiplication by 0).  Every such local that reaches the function's result must be tested against the sentinel (or for finiteness)
+    after the loop.  Functions nobody calls are not concerned.  (This is how black HSLuv at hue 0 produced NaN: F14.)"""
+    called = set()
+    for b in F.bodies:
+        for n, _p in facts.walk(b["body"]):
+            c = n.get("c")
+            if isinstance(c, dict) and "d" in c:
+                called.add(F.S[c["d"]].split("<")[0])
+    n_s = 0
+    for b in F.bodies:
+        if not b["file"].startswith("palette/src/") or "::test" in b["path"] or b["dk"] not in ("Fn", "AssocFn"):
+            continue
+        sent = {}
+        for n, parents in facts.walk(b["body"]):
+            if n.get("k") == "let" and isinstance(n.get("pat"), dict) and n["pat"].get("k") == "bind" and n["pat"].get("mut") and isinstance(n.get("init"), dict):
+                r = n["init"].get("res") if n["init"].get("k") == "path" else None
+                if isinstance(r, dict) and isinstance(r.get("c"), dict) and r["c"].get("n") in ("MAX", "INFINITY", "MIN", "NEG_INFINITY") \
+                        and str(r["c"].get("v", "")).startswith(("f64:", "f32:")):
+                    sent[n["pat"]["n"]] = r["c"]["n"]
+        if not sent:
+            continue
+        base = re.sub(r"::<[^>]*>", "", b["path"]).split("<")[0]
+        if not any(c_ == base or c_.endswith("::" + b["name"]) for c_ in called):
+            continue   # dead code
+        for name, const in sent.items():
+            assigned_in_loop = reaches_result = tested = False
+            for n, parents in facts.walk(b["body"]):
+                is_x = lambda e: isinstance(e, dict) and e.get("k") == "path" and isinstance(e.get("res"), dict) and e["res"].get("k") == "local" and e["res"].get("n") == name
+                if n.get("k") == "assign" and is_x(n["a"][0]) and any(p_.get("k") == "loop" for p_ in parents) and any(p_.get("k") == "if" for p_ in parents):
+                    assigned_in_loop = True
+                if n.get("k") == "bin" and n.get("op") in ("==", "!=", ">=", "<") and not any(p_.get("k") == "loop" for p_ in parents):
+                    sides = n["a"]
+                    def is_const(e):
+                        r_ = e.get("res") if isinstance(e, dict) and e.get("k") == "path" else None
+                        return isinstance(r_, dict) and isinstance(r_.get("c"), dict) and r_["c"].get("n") == const
+                    if (is_x(sides[0]) and is_const(sides[1])) or (is_x(sides[1]) and is_const(sides[0])):
+                        tested = True
+                if n.get("k") == "mcall" and n.get("n") in ("is_finite", "is_infinite") and is_x(n.get("r")) and not any(p_.get("k") == "loop" for p_ in parents):
+                    tested = True
+            tail = b["body"].get("e")
+            if isinstance(tail, dict):
+                reaches_result = any(x.get("k") == "path" and isinstance(x.get("res"), dict) and x["res"].get("n") == name for x, _q in facts.walk(tail))
+            if assigned_in_loop and reaches_result:
+                n_s += 1
+                rep.ob("SENTINEL", "%s: %s" % (fn_key(b), name), tested,
+                       "`%s` starts at %s, is lowered only under a condition inside a loop and reaches the result %s" % (name, const, "after a test against the sentinel" if tested else "WITHOUT a not-found test"), F.loc(b))
+    rep.floor("sentinel searches", n_s, 1)
 
 
 def check_panics(F, rep):
